@@ -569,6 +569,9 @@ class MaildirPart:
                 # multi-message APPEND as the tree delivers it (one message after the other)
                 for c in ('MaildirMulti_torn.cfg', 'MaildirMulti_asis.cfg'):
                     self.models[c] = tlc.run_tlc('MaildirMulti.tla', c, workers=2, timeout=600)
+                # failing lock removal + lock time-out: the process lives on (MaildirFail.tla)
+                for c in ('MaildirFail_conserve.cfg', 'MaildirFail_asis.cfg'):
+                    self.models[c] = tlc.run_tlc('MaildirFail.tla', c, workers=4, timeout=900)
                 # the model's programs (sequence of filesystem calls per command), out of seeded
                 # crash-free simulation, to be compared with the measured operation traces
                 from .c15 import behaviour_to_history
@@ -764,6 +767,27 @@ class MaildirPart:
                         res.violated[:1] != ['AppendAllOrNothing']:
                     run.machinery(f'maildir part: {c}: expected AppendAllOrNothing to be violated '
                                   f'(open finding MultiAppendOneByOne), TLC reported '
+                                  f'{res.violated or res.error or "no error"}')
+        for c, must_hold in (('MaildirFail_conserve.cfg', True), ('MaildirFail_asis.cfg', False)):
+            res = self.models.get(c)
+            if res is None:
+                run.machinery(f'maildir part: {c}: no result')
+            elif must_hold:
+                run.add_model(res, c)
+                if not res.ok:
+                    run.machinery(f'maildir part: model check of {c} failed: '
+                                  f'{res.violated or res.error}')
+            else:
+                # as with the multi-APPEND: while the finding is open TLC must find the refused
+                # command that left its effect behind, else the model is not describing what the
+                # failing-call family exhibits on the real code
+                notes['timeout_after_effect_model'] = {'cfg': c, 'violated': res.violated,
+                                                       'states': res.distinct,
+                                                       'expected': 'RefusedInert is violated'}
+                if 'MaildirTimeoutAfterEffect' in run.known.open and \
+                        res.violated[:1] != ['RefusedInert']:
+                    run.machinery(f'maildir part: {c}: expected RefusedInert to be violated '
+                                  f'(open finding MaildirTimeoutAfterEffect), TLC reported '
                                   f'{res.violated or res.error or "no error"}')
         mm = {}
         for c in self.model_cfgs:
